@@ -177,6 +177,110 @@ def rule_edges(ctx):
               detail=sorted(set(bad))[:8], bad_desc="successor selection differs: " + "; ".join(sorted(set(bad))[:3]))
 
 
+BODY_METHODS = ("Method::POST", "Method::PUT", "Method::PATCH")
+# who may store the edge-selecting flags after construction, and which constant (reviewed table; the
+# typestate fixpoint covers what the stores do, this table pins *who* and *what value*)
+SELECTOR_STORES = {
+    "should_send_body": {"Flow::<B, Prepare>::send_body_despite_method": {1}, "Flow::<B, Await100>::try_read_100": {0}},
+    "await_100_continue": {"Flow::<B, Await100>::try_read_100": {0}, "Flow::<B, RecvResponse>::try_response": {0}},
+}
+
+
+def rule_selectors(ctx):
+    """R09.6: the facts that select the edge after the head are defined by the request: at construction
+    `body due` == method is POST/PUT/PATCH and `expect-100 pending` == the request has Expect: 100-continue,
+    independently of each other; afterwards they are only stored by the documented sites with constants"""
+    R = "R09.6"
+    prog = ctx.prog
+    from .tables import mk_interp
+    new = prog.find("Flow::<B, Prepare>::new")
+    if not ctx.require(new, R, "entry", "Flow::<B, Prepare>::new"):
+        return
+    I = mk_interp(prog, opaque={"CallHolder::<B>::new"})
+    REQ = ("OBJ", "req")
+
+    def init(st):
+        st.write_leaf(REQ, (), ("term", ("in", "req")))
+    try:
+        outs = I.run(new, [ref(REQ)], init)
+    except (PathLimit, Unsupported) as e:
+        ctx.incomplete(R, "interp", str(e))
+        return
+    M = ("proj", ("in", "req"), (("f", "@method"),))
+    n_ok = 0
+    bad = []
+    for o in outs:
+        if o.kind != "return":
+            bad.append("constructor outcome %s" % o.kind)
+            continue
+        if variant_of(o.ret) != "Ok":
+            continue
+        n_ok += 1
+        base = (("v", "Ok"), ("f", "0"), ("f", "inner"))
+        ssb = o.ret.get(base + (("f", "should_send_body"),))
+        aw = o.ret.get(base + (("f", "await_100_continue"),))
+        # body due
+        decided = [I.decide(o.state, ("is", M, m)) for m in BODY_METHODS]
+        if ssb is None:
+            bad.append("should_send_body not initialised")
+        elif ssb[0] == "int":
+            want = 1 if any(d is True for d in decided) else (0 if all(d is False for d in decided) else None)
+            if want is None or want != ssb[1]:
+                bad.append("body-due is the constant %d on a path where the method tests are %s" % (ssb[1], decided))
+        elif not (ssb[0] == "term" and ssb[1][0] == "is" and ssb[1][1] == M and ssb[1][2] in BODY_METHODS):
+            bad.append("body-due is %s" % repr(ssb)[:160])
+        # expect-100 pending: the has_expect_100 result itself, or a constant that this path derived from it
+        expect_atoms = [(k, v) for k, v in o.state.facts.items() if k[0] == "call" and "has_expect_100" in repr(k[:4]) or
+                        (k[0] == "call" and "has_expect_100" in repr(k))]
+        if aw is None:
+            bad.append("await_100_continue not initialised")
+        elif aw[0] == "term" and aw[1][0] == "call" and "has_expect_100" in repr(aw[1]):
+            pass
+        elif aw[0] == "int":
+            vals = set(v[1] for k, v in expect_atoms if v[0] == "bool" and "Iterator::any" in k[1])
+            if vals != {bool(aw[1])}:
+                bad.append("expect-100-pending is the constant %d on a path where the Expect test is %s" % (aw[1], sorted(vals) or "not decided"))
+        else:
+            bad.append("expect-100-pending is %s" % repr(aw)[:160])
+    ctx.check(n_ok >= 3 and not bad, R, "construction",
+              "on all %d successful construction paths: body-due == method in {POST, PUT, PATCH}; expect-100-pending == "
+              "request has Expect: 100-continue (independent of the method)" % n_ok, loc=body_loc(new), detail=sorted(set(bad))[:5])
+    # store sites
+    for field, allowed in sorted(SELECTOR_STORES.items()):
+        seen = {}
+        for b in prog.nonderived_bodies():
+            for blk in b.blocks:
+                for st_ in blk["stmts"]:
+                    if st_["k"] != "assign":
+                        continue
+                    pr = st_["place"].get("proj", [])
+                    if pr and pr[-1].get("k") == "field" and pr[-1].get("name") == field:
+                        op = st_["rv"].get("op", {})
+                        val = int(op["int"]) if st_["rv"]["k"] == "use" and op.get("k") == "const" and "int" in op else None
+                        seen.setdefault(b.short, set()).add(val)
+                    rv = st_["rv"]
+                    if rv["k"] == "ref" and rv.get("mut"):
+                        pr2 = rv["place"].get("proj", [])
+                        if pr2 and pr2[-1].get("k") == "field" and pr2[-1].get("name") == field:
+                            seen.setdefault(b.short, set()).add("&mut")
+        badst = []
+        for fn, vals in seen.items():
+            if fn not in allowed:
+                badst.append("%s stores %s" % (fn, field))
+            elif not vals <= allowed[fn]:
+                badst.append("%s stores %s := %s (allowed %s)" % (fn, field, sorted(map(str, vals)), sorted(allowed[fn])))
+        for fn in allowed:
+            if fn not in seen:
+                badst.append("%s no longer stores %s" % (fn, field))
+        ctx.check(not badst, R, "stores:" + field, "`%s` is stored after construction only by %s, with constants" % (
+            field, ", ".join("%s:=%s" % (f.split("::")[-1], sorted(v)) for f, v in sorted(allowed.items()))), detail=badst)
+
+
+def variant_of(tree):
+    l = tree.get((("$v",),))
+    return l[1] if l and l[0] == "variant" else None
+
+
 def rule_readiness(ctx):
     """R09.3: in each state with a readiness query, advancing succeeds exactly when the query is true"""
     R = "R09.3"
@@ -306,5 +410,5 @@ def rule_witnesses(ctx):
     ctx.floor(R, "witnesses", len(results), 10, "compile-fail witnesses and twins")
 
 
-RULES = [rule_typestate, rule_edges, rule_readiness, rule_inventory]
+RULES = [rule_typestate, rule_edges, rule_selectors, rule_readiness, rule_inventory]
 THOROUGH_RULES = [rule_witnesses]
